@@ -40,7 +40,7 @@ func Obj(o map[string]Value) Value {
 func (v Value) MarshalJSON() ([]byte, error) {
 	var p interface{}
 	switch v.K {
-	case "null", "echo", "absent", "any":
+	case "null", "echo", "absent", "any", "subval":
 		p = 0
 	case "each", "opt":
 		p = v.E
@@ -82,7 +82,7 @@ func (v *Value) UnmarshalJSON(b []byte) error {
 	}
 	v.K = raw.K
 	switch raw.K {
-	case "null", "echo", "absent", "any":
+	case "null", "echo", "absent", "any", "subval":
 	case "each", "opt":
 		v.E = &Value{}
 		return json.Unmarshal(raw.V, v.E)
